@@ -25,7 +25,11 @@ RULE = (
     "every other position satisfies the missing-placeholder predicate (C02); "
     "the crop directory is byte-identical after the partial reap; reap() "
     "without allow_incomplete raises XYZError and changes nothing; growing "
-    "the rest and reaping gives exactly the direct run.  Non-trivial = "
+    "the rest and reaping gives exactly the direct run; for 1-D raw crops a "
+    "second crop is then sown at the same place with a larger batch size, "
+    "partly grown and partially reaped (its placeholders must follow ITS "
+    "batches); the Dataset-valued function also returns scalar and auxiliary "
+    "coordinates in half of its cases.  Non-trivial = "
     "remainder != 0 (or a short last batch) and a missing batch whose size "
     "differs from the plain batch size.  Distinct by construction."
 )
@@ -81,6 +85,10 @@ def run_case(case):
             elif mode == "ds-xobj":
                 lspec = {"vars": [["out", ["t"]], ["E", []]],
                          "sizes": {"t": 2}, "ret": "dataset"}
+                if case["N"] % 2:
+                    # the function's Dataset also carries a scalar and an
+                    # auxiliary (non-index) coordinate
+                    lspec["aux_coords"] = True
             else:
                 lspec = {"vars": [["out", []], ["E", []]], "sizes": {},
                          "ret": "tuple"}
@@ -282,6 +290,46 @@ def run_case(case):
                            for loc in locs},
                 fn_kwargs_extra={}, constants={}, resources={}, attrs={},
                 var_coords=var_coords, explicit_names=not xobj, tag="full")
+
+        # ---------------- another crop at the same place, same process,
+        # batched differently: its partial reap is about ITS batches
+        if raw and cases is None and len(combos) == 1 and not case["shuffle"]:
+            avals = combos["a"]
+            s2 = max(bsizes.values()) + 1
+            with under_test("second crop, other batch size"):
+                cB = x.Crop(fn=fn, name="c9", parent_dir=root, batchsize=s2)
+                cB.sow_combos(combos, verbosity=0)
+            B2 = len(crops.batch_ids(root, "c9"))
+            fin_b = sorted(i for i in fin if i <= B2) or [1]
+            if len(fin_b) < B2:
+                where2 = {}
+                for i in range(1, B2 + 1):
+                    for kw in crops.read_batch(root, "c9", i):
+                        where2[models.plain(kw["a"])] = i
+                with under_test("second crop: grow subset, partial reap"):
+                    cB.grow(tuple(fin_b), verbosity=0)
+                    partB = cB.reap(allow_incomplete=True)
+                require(isinstance(partB, tuple) and
+                        len(partB) == len(avals), "grid-shape",
+                        f"second crop: {partB!r:.200}")
+                ex_ = models.result_of(kind, {"a": avals[0]})
+                for a_, got_ in zip(avals, partB):
+                    if where2[a_] in fin_b:
+                        want_ = models.result_of(kind, {"a": a_})
+                        require(models.deep_eq(got_, want_),
+                                "second-crop-finished-cell-wrong",
+                                lambda: f"second crop (batchsize {s2}, "
+                                        f"finished {fin_b}) at a={a_}: got "
+                                        f"{got_!r:.200}, expected "
+                                        f"{want_!r:.200}")
+                    else:
+                        prob = models.placeholder_problem(got_, ex_)
+                        require(prob is None,
+                                "second-crop-unfinished-cell-not-missing",
+                                lambda: f"second crop (batchsize {s2}, "
+                                        f"finished {fin_b}) at a={a_} (batch "
+                                        f"{where2[a_]} not grown): {prob}; "
+                                        f"got {got_!r:.200}")
 
     plain = case["spec"][1] if spec[0] == "batchsize" else case["N"] // B
     odd_missing = any(bsizes[i] != plain for i in range(1, B + 1)
